@@ -59,12 +59,7 @@ Definition atomize (k : kind) (evs : list ev) : list ev :=
   end.
 
 (* the property, on the implementation's outputs *)
-Definition C34_oracle_ok (c : C34_case) : bool := oracle (c_kind c) true (atomize (c_kind c) (c_evs c)).
+Definition C34_oracle_ok (c : C34_case) : bool := oracle (c_kind c) (atomize (c_kind c) (c_evs c)).
 
-(* class 1: the ONLY clauses rejected are the mpsc disconnection clauses
-   (recorded finding C34-mpsc-never-closes) *)
-Definition C34_known (c : C34_case) : N :=
-  match c_kind c with
-  | KMpsc => if oracle KMpsc false (c_evs c) then 1%N else 0%N
-  | _ => 0%N
-  end.
+(* no known-finding class (C34-mpsc-never-closes was fixed in /repo commit 112abf8) *)
+Definition C34_known (c : C34_case) : N := 0%N.
